@@ -1374,7 +1374,30 @@ func pqScenarios() []*sched.Scenario {
 			}
 		}
 	}
+	storageScenario := &sched.Scenario{Name: "indexedstorage/concurrent-get-create", Run: func() {
+		st := memstorage.NewIndexedStorage[idx, int, int]()
+		vrt.Par(
+			func() { st.Get(7, true).Set(1, 10) },
+			func() { st.Get(7, true).Set(2, 20) },
+			func() {
+				if s := st.Get(7); s != nil {
+					s.Set(3, 30)
+				}
+			},
+		)
+		final := st.Get(7)
+		if final == nil {
+			vrt.Fail("storage-lost", "Get(7, true) was called twice but Get(7) returns nil afterwards")
+			return
+		}
+		for k, v := range map[int]int{1: 10, 2: 20} {
+			if got, ok := final.Get(k); !ok || got != v {
+				vrt.Fail("write-lost", "a value written through the storage handed out by Get(7, true) is not in the storage Get(7) returns now (key %d: %v, %v)", k, got, ok)
+			}
+		}
+	}}
 	return []*sched.Scenario{
+		storageScenario,
 		{Name: "priorityqueue/handle-vs-2pops", Run: func() {
 			w := mk(3)
 			vrt.Par(func() { w.handles[1]() }, func() { pop(w); pop(w) })
